@@ -1409,3 +1409,58 @@ B("C04-skip-branches-swapped", "C04", "C04:R-C04.4", REC,
   "            if should_skip_sealed_memtable {", "            if !should_skip_sealed_memtable {")
 B("C04-reader-drops-clear", "C04", "C04:R-C04.2:<journal::batch_reader::JournalBatchReader as std::iter::Iterator>::next", "src/journal/batch_reader.rs",
   "                    self.cleared_keyspaces.push(keyspace_id);", "                    let _ = keyspace_id;")
+
+# ======================================================================== C01
+B("C01-next_back-calls-next", "C01", "C01:R-C01.2:<iter::Iter as std::iter::DoubleEndedIterator>::next_back", "src/iter.rs",
+  "        self.iter.next_back().map(Guard)", "        self.iter.next().map(Guard)")
+B("C01-batch-tombstone-inserts", "C01", "C01:R-C01.1:batch::WriteBatch::commit", BATCH,
+  "ValueType::Tombstone => item.keyspace.tree.remove(item.key, batch_seqno),", "ValueType::Tombstone => item.keyspace.tree.insert(item.key, item.value, batch_seqno),")
+B("C01-last-is-first", "C01", "C01:R-C01.2:keyspace::Keyspace::last_key_value", KS,
+  "self.tree.last_key_value(SeqNo::MAX, None).map(Guard)", "self.tree.first_key_value(SeqNo::MAX, None).map(Guard)")
+B("C01-snapshot-last-uses-next", "C01", "C01:R-C01.2:<snapshot::Snapshot as readable::Readable>::last_key_value", "src/snapshot.rs",
+  "        self.iter(keyspace).next_back()", "        self.iter(keyspace).next()")
+B("C01-guard-value-returns-key", "C01", "C01:R-C01.2:guard::Guard::value", "src/guard.rs",
+  "        self.0.value().map_err(Into::into)", "        self.0.key().map_err(Into::into)")
+B("C01-insert-journals-tombstone", "C01", "C01:R-C01.1:keyspace::Keyspace::insert:journal-kind", KS,
+  ".write_raw(self.id, &key, &value, lsm_tree::ValueType::Value, seqno)", ".write_raw(self.id, &key, &value, lsm_tree::ValueType::Tombstone, seqno)")
+B("C01-remove-applies-other-key", "C01", "C01:R-C01.1:keyspace::Keyspace::remove:journal-kind", KS,
+  """        let (item_size, memtable_size) = self.tree.remove(key, seqno);
+
+        self.supervisor.snapshot_tracker.publish(seqno);
+
+        drop(journal_writer);
+
+        self.supervisor.write_buffer_size.allocate(item_size);
+        self.maintenance(memtable_size);
+
+        Ok(())
+    }
+
+    /// Removes an item from the keyspace, leaving behind a weak tombstone.""",
+  """        let (item_size, memtable_size) = self.tree.remove(UserKey::from(&key[..key.len() / 2]), seqno);
+
+        self.supervisor.snapshot_tracker.publish(seqno);
+
+        drop(journal_writer);
+
+        self.supervisor.write_buffer_size.allocate(item_size);
+        self.maintenance(memtable_size);
+
+        Ok(())
+    }
+
+    /// Removes an item from the keyspace, leaving behind a weak tombstone.""")
+B("C01-tx-keyspace-get-size", "C01", "C01:R-C01.2:tx::single_writer::keyspace::SingleWriterTxKeyspace::contains_key", "src/tx/single_writer/keyspace.rs",
+  "        self.inner.contains_key(key)", "        Ok(self.inner.get(key)?.is_some_and(|v| !v.is_empty()))")
+B("C01-sw-tx-range-is-prefix", "C01", "C01:R-C01.2:<tx::single_writer::write_tx::WriteTransaction<'_> as readable::Readable>::first_key_value", "src/tx/single_writer/write_tx.rs",
+  "        self.inner.first_key_value(keyspace)", "        self.inner.last_key_value(keyspace)")
+B("C01-snapshot-reads-other-keyspace", "C01", "C01:R-C01.2", "src/tx/write_tx.rs",
+  """        let res = keyspace.tree.get(key, self.nonce.instant)?;
+
+        Ok(res)""",
+  """        let other = self.memtables.keys().next().unwrap_or(keyspace);
+        let res = other.tree.get(key, self.nonce.instant)?;
+
+        Ok(res)""")
+E("EQ-first-via-iter", KS,
+  "self.tree.first_key_value(SeqNo::MAX, None).map(Guard)", "self.tree.iter(SeqNo::MAX, None).next().map(Guard)")
